@@ -2,9 +2,14 @@
 
 _WD = ["--watchdog", "120"]     # a parser or loop that stops making progress is a hang datum (confirmed alone by the runner)
 
+# The runner's defaults plus malloc_context_size=4 and no legend: a use-after-free report through the std::function / bind frames of the server is
+# otherwise longer than the 20 000 characters the runner keeps, and would lose its "ERROR: AddressSanitizer: <kind>" line (the key).
+_ENV = {"ASAN_OPTIONS": "abort_on_error=1:detect_leaks=0:detect_stack_use_after_return=0:allocator_may_return_null=1:handle_abort=1:"
+                        "print_summary=1:symbolize=1:malloc_context_size=4:print_legend=0"}
+
 
 def _leg(name, harness, quick, thorough, **kw):
-    d = dict(name=name, harness=harness, flavour="asan", mode=name, quick=quick, thorough=thorough, args=list(_WD), case_timeout=120)
+    d = dict(name=name, harness=harness, flavour="asan", mode=name, quick=quick, thorough=thorough, args=list(_WD), case_timeout=120, env=_ENV)
     d.update(kw)
     return d
 
@@ -55,7 +60,7 @@ PROP = dict(
         _leg("live", "c12_server", 20000, 400000),
         # one case = one libFuzzer session of 200 000 executions over a generated corpus (thorough tier only)
         dict(name="fuzz", harness="c12_fuzz", flavour="fuzz", mode="fuzz", args=["--runs", "200000", "--maxlen", "600"],
-             quick=0, thorough=96, case_timeout=900),
+             quick=0, thorough=96, case_timeout=900, env=_ENV),
     ],
     rule=("segment/bigsplit: one case = one generated stream of 1-6 (1-4) well-formed HTTP/1.0/1.1 requests, each with a Content-Length header "
           "(all seven methods; targets with percent-escapes in either hex case, ;params, ?query, #fragment, empty values; 0-4 extra headers with "
@@ -86,9 +91,11 @@ PROP = dict(
         "segmentation clause); header names in other letter case, empty header values, tabs as optional white space and chunked bodies are not generated",
         "the bytes given to parse() are an exactly sized heap block (an over-read of one byte is an AddressSanitizer report); over-reads inside std::string copies the "
         "parser makes itself are visible only as content differences",
-        "loopback TCP inside one thread: after the client's write() returns, the data is readable by the server in the next loop pass; a verdict that something "
-        "never happened is given only after every scripted handler has completed and 80 further passes brought no byte, no request and no completion (the last 20 of "
-        "them wait 3 ms each on the socket)",
+        "loopback TCP inside one thread. A verdict that something never happened (response lost, request not delivered, connection not closed) is given only "
+        "after every scripted handler has completed, 40 further passes brought no byte, no request and no completion, and either the client has seen EOF/reset or "
+        "the kernel is quiescent on 5 consecutive passes with the server's end still open (SIOCOUTQ and SIOCINQ zero on the client socket and on the server's "
+        "end of the connection, found from outside by its address pair): whatever the server wrote has then arrived. While packets are in flight the harness keeps "
+        "passing and waiting (up to 3 s); a case that never settles is left unjudged and counted (env_unjudged_kernel_not_quiescent), never reported",
         "requests sent behind a closing request must not be answered; when the client keeps talking after its closing request all responses are kept below 20 kB so "
         "that the kernel's reset-on-close-with-unread-data cannot truncate a response and be mistaken for a server defect",
         "the client never half-closes: it closes only after the verdict; a peer that sends FIN is treated by TcpConnection as gone, which the property leaves open",
